@@ -123,6 +123,7 @@ class Loop:
     init: dict = field(default_factory=dict)
     as_lc: dict = field(default_factory=dict)   # accumulators recognised as list comprehensions
     carried: dict = field(default_factory=dict) # name -> (value before the loop, value at the end of one iteration)
+    by_position: bool = False                   # an index loop over a local array read as enumerate(array)
 
     @property
     def virtual(self) -> bool:
@@ -935,6 +936,17 @@ class _Run:
                 self.assign(tgt.elts[0], idx, st, s)
                 self.assign(tgt.elts[1], ('lv', lid, 'elem'), st, s)
                 return
+        if isinstance(tgt, ast.Name) and tag(pit) == 'call' and pit[1] == ('g', 'builtins.range') and len(pit[2]) == 1 \
+                and not pit[3] and tag(pit[2][0]) == 'call' and pit[2][0][1] == ('g', 'builtins.len') and pit[2][0][2] \
+                and tag(pit[2][0][2][0]) == 'call' and tag(pit[2][0][2][0][1]) == 'g' \
+                and pit[2][0][2][0][1][1].startswith('numpy.'):
+            # an index loop over a NumPy array held in a local (`for i in range(len(deltas)): d = deltas[i]`) visits the
+            # array like `for i, d in enumerate(deltas)`
+            loop = self.ex.loops[lid]
+            loop.iter, loop.kind = pit[2][0][2][0], 'enumerate'
+            loop.by_position = True
+            self.assign(tgt, ('lv', lid, 'idx'), st, s)
+            return
         if tag(pit) in ('list', 'tuple') and len(pit[1]) == 1 and isinstance(tgt, ast.Name):
             # singleton literal: the loop variable *is* that element
             st.env[tgt.id] = pit[1][0]
@@ -1180,6 +1192,10 @@ class _Run:
     def ev_Subscript(self, e, st):
         base = self.ev(e.value, st)
         idx = self.ev(e.slice, st)
+        if tag(idx) == 'lv' and idx[2] == 'idx':
+            loop = self.ex.loops.get(idx[1])
+            if loop is not None and loop.kind == 'enumerate' and getattr(loop, 'by_position', False) and loop.iter == base:
+                return ('lv', idx[1], 'elem')         # for i in range(len(xs)): xs[i]  is  for i, x in enumerate(xs): x
         t = T.mk_sub(base, idx)
         if self._rt:
             t = _read_through(t)
